@@ -30,6 +30,27 @@ CLAIMED = {
  "C18": ("guarded-effect analysis of flush's pop arms and row accounting",
          "Pop priority assigned then advanced, bar retained once at the cancelling frame, rows accounted and bar dropped at the next terminal frame, no-pop bars keep the default arm, Flush receives rows minus popped rows, initial pop priority below all defaults.",
          NOTE + "The persisted screen region is not interpreted.", "DESIGN.md §4 C18"),
+ "C01": ("communication-shape analysis (liveness skeleton) + guarded-effect path analysis + width-exchange discipline",
+         "All pairings and escapes without which some schedule provably blocks Wait forever are decided on every path: schema classification of every blocking operation, wait-group pairing, terminal-state-implies-cancel chain (trigger, render closure counter, flush cancel), one frame per render, producer-closed iterators, FIFO heap requests never issued while iterating, new bars announced with sync=true, balanced width exchanges, heap protocol table, reply pairing, created bars pushed or parked. Two open known findings (lost queued successor) are reported as KNOWN-FINDING.",
+         NOTE + "Absence of deadlock as a global property of all schedules is not decided (that needs a schedule explorer); user callbacks are assumed to return; fairness assumed.", "DESIGN.md §4 C01"),
+ "C03": ("who-may-call/role analysis + ordering rules on SSA paths",
+         "No byte after Wait (writer confined to the container role; Wait/Shutdown ordering; deferred pwg.Done), terminal bars drawn before cancel (counter copied before increment; cancel at the cancelling value), final render before the end request under auto refresh and repeated while the heap reports change, every non-error path of flush ends in the writer's Flush, final values survive exit, completed implies current == total.",
+         NOTE + "Frame contents are not interpreted; manual-refresh containers excluded; convergence of the final loop in a bounded number of cycles is not decided.", "DESIGN.md §4 C03"),
+ "C10": ("actor-confinement analysis: provenance of base pointers over SSA + VTA/CHA call graph, per-field access classification",
+         "For bState, pState, Bar and the cwriter buffer every field access is classified (pre-publication, owner, post-exit, hand-over, other) and the per-field confinement rule is decided; whole-struct loads count as reads of every field; at most one inbox offer per exported operation on any path; owner loops call received closures synchronously; decorator state mutated only by the bar actor roles; nothing touches the state after publication.",
+         NOTE + "Linearizability as a history property is not decided; the heap/flush hand-over of Bar.index/priority is an assumption; races inside user decorators shared between bars are documented misuse.", "DESIGN.md §4 C10"),
+ "C12": ("width-exchange discipline (E8) by path enumeration and structural loop analysis",
+         "Format negotiates exactly max(W, text)(+extra) with one send then one receive iff the sync bit; every Decor performs exactly one exchange and returns its width; distributor collects all, keeps the maximum under received > max, distributes to all; wSyncTable covers both groups in order; push arm accumulates the re-sync flag; sync arm rebuilds exactly under sync || len changed from every heap element and launches a distributor per column of both matrices; new bars pushed with sync=true.",
+         NOTE + "Numeric equality of rendered widths is not computed; runewidth is trusted.", "DESIGN.md §4 C12"),
+ "C13": ("wrapper-transparency and who-may-call rules on SSA",
+         "The Write closure forwards the caller's slice once to the current writer and replies (n, err) unchanged; closures run synchronously in the container loop; the buffer is confined to the container role and rows are written only inside flush; a final render and Flush precede the end request; the discarding writer is used while the render delay is pending; a late Write returns (0, ErrDone).",
+         NOTE + "The byte stream is not interpreted; manual-refresh containers have no final frame by construction; fault histories are outside the property's quantifier.", "DESIGN.md §4 C13"),
+ "C14": ("context data-flow + exit-arm path analysis + communication-shape rules",
+         "Bar contexts derive from the container's; listeners close done once on ctx.Done and return; the non-refreshing container's done is ctx.Done; the bar exit arm notifies every (unwrapped) shutdown listener of both groups in a goroutine accounted before the loop's own Done, derives aborted, publishes, releases, returns - once; one end request on every exit of the container loop; the heap's end arm notifies once iff configured and closes the channel; Wait/Shutdown ordering; unwrap is recursive.",
+         NOTE + "Timing is not decided; context propagation is the standard library's.", "DESIGN.md §4 C14"),
+ "C15": ("error-discipline rules + abstract reachability (nil-ness through phis) + liveness schemas",
+         "Every render/flush error reaches the container loop's err; the error edge spawns the drain loop, cancels the container and disables all three inboxes; from every error edge no further render is reachable and the error is written to the debug output exactly once on every path to return; the size-query error abandons the cycle; a cycle is abandoned only when no render is in flight (flush never leaves its collection loop early).",
+         NOTE + "Fault injection is not executed; the rules hold for every fault site and every k because they hold on every path.", "DESIGN.md §4 C15"),
 }
 PENDING_REASON = "check not built yet (DESIGN.md §7: a property is claimed only once its rules are built and silent on the repaired tree)"
 NA = {}
